@@ -29,12 +29,26 @@ var curValMask uint32
 
 func isVal(t int) bool { return t >= 0 && t < NumK && curValMask&(1<<uint(t)) != 0 }
 
+// curAltMask: bit p set = universe position p is realised as the type
+// K<(p+1) mod 16> of package digsim/altsim, whose String() equals that of this
+// package's type at the next position (Config.AltMask; set by NewWorld).
+var curAltMask uint32
+
+func isAlt(t int) bool {
+	return t >= 0 && t < NumK && curAltMask&(1<<uint(t)) != 0 && !isVal(t)
+}
+
+func altIndex(t int) int { return (t + 1) % NumK }
+
 func TypeName(t int) string {
 	if IsSliceT(t) {
 		return "[]" + TypeName(t-TSlice)
 	}
 	if isVal(t) {
 		return fmt.Sprintf("sim.V%d", t)
+	}
+	if isAlt(t) {
+		return fmt.Sprintf("*sim.K%d", altIndex(t)) // prints like the main package's next type
 	}
 	if IsIface(t) {
 		return fmt.Sprintf("sim.I%d", t-TIface)
@@ -84,6 +98,9 @@ type Param struct {
 	// dig.In carries ignore-unexported:"true". A legal encoding of the same
 	// parameters.
 	Hidden int `json:"hidden,omitempty"`
+	// Embed: this object is an anonymous (embedded) field of the enclosing
+	// parameter object instead of a named one.
+	Embed bool `json:"embed,omitempty"`
 }
 
 type RKind int
@@ -126,7 +143,16 @@ type Func struct {
 	ErrAt    int      `json:"err_at,omitempty"`    // >0: the error result is declared before top-level result ErrAt (in the middle)
 	ErrExtra int      `json:"err_extra,omitempty"` // a second error result that is always nil: 1 declared last, 2 declared first
 	Reenter  bool     `json:"reenter,omitempty"`   // constructor / decorator body calls Invoke for its own first result (re-entrant user code)
-	Variadic bool     `json:"variadic,omitempty"`
+	ReKey    *Key     `json:"re_key,omitempty"`    // with Reenter: the nested request is for this key instead ...
+	ReScope  int      `json:"re_scope,omitempty"`  // ... issued on this scope
+	ReCB     bool     `json:"re_cb,omitempty"`     // with Reenter and Callback: the nested request is issued from the callback, not from the body
+	// ThenProvide > 0 (invoked functions): the body registers constructor
+	// Funcs[ThenProvide-1] on scope ThenScope before it returns (lazy
+	// registration from inside an Invoke). Equivalent to a Provide issued right
+	// after the Invoke, and checked as such.
+	ThenProvide int  `json:"then_provide,omitempty"`
+	ThenScope   int  `json:"then_scope,omitempty"`
+	Variadic    bool `json:"variadic,omitempty"`
 
 	// Provide options.
 	OptName    string `json:"opt_name,omitempty"`
@@ -134,8 +160,11 @@ type Func struct {
 	OptFlatten bool   `json:"opt_flatten,omitempty"` // Group("g,flatten")
 	OptAs      []int  `json:"opt_as,omitempty"`      // interface numbers
 	Export     bool   `json:"export,omitempty"`
+	OptNoise   bool   `json:"opt_noise,omitempty"` // every Provide option is preceded by the same option with another value (the last one wins)
 	Callback   bool   `json:"callback,omitempty"`
 	Info       bool   `json:"info,omitempty"`
+	LocPC      bool   `json:"loc_pc,omitempty"`     // Provide with LocationForPC(<another declared function>): the ID must still be this function's
+	ReuseInfo  bool   `json:"reuse_info,omitempty"` // Provide fills the Info struct the previous accepted Provide filled
 
 	Salt  int64 `json:"salt,omitempty"`   // decides data-dependent stub behaviour (e.g. flatten lengths); survives renumbering
 	Cat   int   `json:"cat"`              // catalogue index, -1 for a dynamic stub
@@ -297,6 +326,15 @@ func (f *Func) String() string {
 	b.WriteString(")")
 	if f.Reenter {
 		b.WriteString(" Reenter")
+		if f.ReKey != nil {
+			fmt.Fprintf(&b, "(%s from s%d)", *f.ReKey, f.ReScope)
+		}
+		if f.ReCB {
+			b.WriteString("(in callback)")
+		}
+	}
+	if f.ThenProvide > 0 {
+		fmt.Fprintf(&b, " then-Provide(f%d to s%d)", f.ThenProvide-1, f.ThenScope)
 	}
 	if f.OptName != "" {
 		fmt.Fprintf(&b, " Name(%s)", f.OptName)
@@ -351,6 +389,9 @@ func (p Param) String() string {
 	}
 	if p.Hidden > 0 {
 		return "In(+unexported){" + strings.Join(parts, "; ") + "}"
+	}
+	if p.Embed {
+		return "embedded In{" + strings.Join(parts, "; ") + "}"
 	}
 	return "In{" + strings.Join(parts, "; ") + "}"
 }
@@ -418,10 +459,11 @@ const (
 	FaultErr
 	FaultErrPartial
 	FaultPanic
+	FaultCBPanic // the function's *callback* panics after these executions (the function itself behaves)
 )
 
 func (k FaultKind) String() string {
-	return [...]string{"none", "err", "err+partial", "panic"}[k]
+	return [...]string{"none", "err", "err+partial", "panic", "callback-panic"}[k]
 }
 
 // Fault makes executions [From, To) of function Fn fail (To < 0: forever).
@@ -439,6 +481,7 @@ type Config struct {
 	ShuffleSeed int64  `json:"shuffle_seed"`
 	PanicKind   int    `json:"panic_kind"`         // 0 struct value, 1 error value, 2 string, 3 error value wrapping a dig error
 	ValMask     uint32 `json:"val_mask,omitempty"` // universe positions realised as struct values V<i> (dynamic stubs only)
+	AltMask     uint32 `json:"alt_mask,omitempty"` // universe positions realised as same-named types of package digsim/altsim (dynamic stubs only)
 }
 
 // History is everything a run depends on. It is the replay file.
@@ -475,8 +518,11 @@ func (h *History) NumScopes() int {
 
 func (h *History) Describe() []string {
 	var out []string
-	defer func(m uint32) { curValMask = m }(curValMask)
-	curValMask = h.Cfg.ValMask
+	defer func(m, a uint32) { curValMask, curAltMask = m, a }(curValMask, curAltMask)
+	curValMask, curAltMask = h.Cfg.ValMask, h.Cfg.AltMask
+	if h.Cfg.AltMask != 0 {
+		out = append(out, fmt.Sprintf("universe positions realised by same-named types of another package: mask %#x", h.Cfg.AltMask))
+	}
 	if h.Cfg.ValMask != 0 {
 		out = append(out, fmt.Sprintf("struct-valued universe positions: mask %#x", h.Cfg.ValMask))
 	}
